@@ -1,2 +1,3 @@
 pub mod common;
 pub mod server_tcp;
+pub mod client;
